@@ -98,6 +98,7 @@ def Obj.specRepr (o : Obj) (v : IVal) : Nat :=
   | .uint32, .int i => i.toNat
   | .float64, .flt b => b
   | .bytes, .bytes b => b.foldl (fun acc x => 256 * acc + x) 0
+  | .ascii, .str cps => cps.foldl (fun acc x => 256 * acc + x) 0          -- ISO-8859-1: one byte per character
   | _, _ => 0
 
 theorem foldl_eq_ofBytesBE (b : Bytes) (acc : Nat) :
@@ -118,9 +119,10 @@ theorem Obj.raw_eq_spec (o : Obj) (ho : o.ok) (v : IVal) (hr : o.inRange v) : o.
   cases hkind : o.kind <;> cases v <;> simp only [hkind] at hr hk ⊢
   · exact C02_numrepr o.enc hk o.bl hbl _ hr
   · rw [foldl_eq_ofBytesBE]; simp
+  · rw [foldl_eq_ofBytesBE]; simp
 
 /-- **Bit-exact PDUs, flat composite tier.** For a request/response/structure made of (≤ 4000) positioned
-    VALUE parameters (`A_INT32` in any of its four encodings, `A_UINT32`, `A_FLOAT64`, `A_BYTEFIELD`) and an accepted assignment of representable values with no overlap warning:
+    VALUE parameters (`A_INT32` in any of its four encodings, `A_UINT32`, `A_FLOAT64`, `A_BYTEFIELD`, `A_ASCIISTRING`) and an accepted assignment of representable values with no overlap warning:
     (1) bit `j` of the ODX representation of each value sits at the absolute position the positional rule gives —
     the object's byte position is the structure's origin (0) + BYTE-POSITION, or the byte behind the previous
     parameter (`cursorAfter`), its bit position is BIT-POSITION, its byte order as declared;
